@@ -198,8 +198,10 @@ class Inliner:
                     work.append((nb, chain, self_subst))
                 continue
             t["_blk"] = blocks[b]
+            t["_blocks"] = blocks
             target_fn, sub, args = self._call_target(t, callee, locals_, self_subst)
             t.pop("_blk", None)
+            t.pop("_blocks", None)
             if target_fn is None:
                 continue
             if target_fn.path in self.keep:
@@ -318,7 +320,145 @@ class Inliner:
         "core::option::Option::<T>::unwrap_or_else": ("Option", "Some", "None", "payload", "call0"),
     }
 
+    def _expand_for_each(self, b, t, callee, locals_, blocks):
+        """`iter.for_each(f)` with a statically known closure / fn item becomes the loop it abbreviates:
+        loop { match Iterator::next(&mut iter) { Some(x) => f(x), None => break } }"""
+        args = t["args"]
+        if len(args) != 2 or args[0]["k"] not in ("move", "copy") or args[0]["pl"]["p"]:
+            return None
+        fty = self._op_ty(args[1], locals_)
+        if fty is None or fty.get("k") not in ("closure", "fndef"):
+            return None
+        span = {k: t.get(k) for k in ("file", "line", "exp", "macro")}
+        unk = {"s": "?", "k": "other", "hp": False, "nd": False, "dp": 0}
+        it = args[0]["pl"]["l"]
+        rl = len(locals_); locals_.append({"ty": {"s": "&mut ?", "k": "refmut", "hp": False, "nd": False, "dp": 0}, "name": None})
+        ol = len(locals_); locals_.append({"ty": {"s": "Option<?>", "k": "adt", "adt": "core::option::Option", "peel": 0, "hp": False, "nd": False, "dp": 0}, "name": None})
+        dl = len(locals_); locals_.append({"ty": {"s": "isize", "k": "int", "hp": False, "nd": False, "dp": 0}, "name": None})
+        pl_ = len(locals_); locals_.append({"ty": unk, "name": None})
+        tl = len(locals_); locals_.append({"ty": {"s": "(?,)", "k": "tuple", "hp": False, "nd": False, "dp": 0}, "name": None})
+        ul = len(locals_); locals_.append({"ty": {"s": "()", "k": "tuple", "hp": False, "nd": False, "dp": 0}, "name": None})
+        fl = len(locals_); locals_.append({"ty": fty, "name": None})
+        cleanup = blocks[b]["cleanup"]
+        hdr = len(blocks)
+        sw = hdr + 1
+        body = hdr + 2
+        done = hdr + 3
+        itty = t.get("argtys", [unk])[0] if t.get("argtys") else unk
+        next_callee = {"def": "core::iter::Iterator::next", "full": "core::iter::Iterator::next", "crate": "core", "args": [], "targs": [], "local": False,
+                       "trait": "core::iter::Iterator", "self_ty": itty}
+        blocks.append({"cleanup": cleanup, "stmts": [{"k": "assign", "dst": {"l": rl, "p": []}, "rv": {"k": "ref", "mut": True, "pl": {"l": it, "p": []}}, **span}],
+                       "term": {"k": "call", "callee": next_callee, "fnop": {"k": "const", "ty": unk, "desc": "next"}, "args": [{"k": "move", "pl": {"l": rl, "p": []}}],
+                                "argtys": [{"s": "&mut ?", "k": "refmut"}], "dst": {"l": ol, "p": []}, "target": sw, "unwind": t["unwind"], **span, "macro": "Desugaring(ForLoop)"}})
+        blocks.append({"cleanup": cleanup, "stmts": [{"k": "assign", "dst": {"l": dl, "p": []}, "rv": {"k": "discr", "pl": {"l": ol, "p": []}}, **span}],
+                       "term": {"k": "switch", "discr": {"k": "move", "pl": {"l": dl, "p": []}}, "targets": [["0", done], ["1", body]], "otherwise": done, **span}})
+        payload = {"k": "move", "pl": {"l": ol, "p": [{"dc": "Some", "vi": 1}, {"f": 0, "n": "0", "of": ""}]}}
+        blocks.append({"cleanup": cleanup, "stmts": [
+            {"k": "assign", "dst": {"l": pl_, "p": []}, "rv": {"k": "use", "op": payload}, **span},
+            {"k": "assign", "dst": {"l": tl, "p": []}, "rv": {"k": "agg", "ak": "tuple", "name": "", "variant": "", "vidx": 0, "fields": [], "ops": [{"k": "move", "pl": {"l": pl_, "p": []}}]}, **span},
+            {"k": "assign", "dst": {"l": rl, "p": []}, "rv": {"k": "ref", "mut": True, "pl": {"l": fl, "p": []}}, **span}],
+            "term": {"k": "call", "callee": {"def": "core::ops::FnMut::call_mut", "full": "core::ops::FnMut::call_mut", "crate": "core", "args": [], "targs": [], "local": False, "trait": "core::ops::FnMut"},
+                     "fnop": {"k": "const", "ty": unk, "desc": "call_mut"}, "args": [{"k": "move", "pl": {"l": rl, "p": []}}, {"k": "move", "pl": {"l": tl, "p": []}}],
+                     "argtys": [fty, {"s": "(?,)", "k": "tuple"}], "dst": {"l": ul, "p": []}, "target": hdr, "unwind": t["unwind"], **span}})
+        blocks.append({"cleanup": cleanup, "stmts": [{"k": "assign", "dst": copy.deepcopy(t["dst"]), "rv": {"k": "use", "op": {"k": "const", "ty": {"s": "()", "k": "tuple"}, "desc": "()"}}, **span}],
+                       "term": {"k": "goto", "target": t["target"], **span} if t["target"] is not None else {"k": "unreachable", **span}})
+        blocks[b]["stmts"].append({"k": "assign", "dst": {"l": fl, "p": []}, "rv": {"k": "use", "op": copy.deepcopy(args[1])}, **span})
+        blocks[b]["term"] = {"k": "goto", "target": hdr, **span, "adaptor": "for_each"}
+        return [hdr, sw, body, done]
+
+    OPT_ADAPTORS = {
+        "core::option::Option::<T>::map": "map",
+        "core::option::Option::<T>::filter": "filter",
+        "core::option::Option::<T>::and_then": "and_then",
+        "core::option::Option::<T>::is_some_and": "is_some_and",
+        "core::bool::<impl bool>::then": "then",
+    }
+
+    def _expand_option_adaptor(self, b, t, callee, locals_, blocks):
+        kind = self.OPT_ADAPTORS[callee["def"]]
+        args = t["args"]
+        if len(args) != 2 or args[0]["k"] not in ("move", "copy"):
+            return None
+        fty = self._op_ty(args[1], locals_)
+        if fty is None or fty.get("k") not in ("closure", "fndef"):
+            return None
+        if fty.get("k") == "fndef" and self.facts.fn(fty["fndef"]) is None:
+            return None   # foreign fn item (e.g. NonZero::new): keep the library call
+        span = {k: t.get(k) for k in ("file", "line", "exp", "macro")}
+        unk = {"s": "?", "k": "other", "hp": False, "nd": False, "dp": 0}
+        cleanup = blocks[b]["cleanup"]
+        recv = args[0]["pl"]
+
+        def new_local(ty=unk):
+            locals_.append({"ty": ty, "name": None})
+            return len(locals_) - 1
+        dl = new_local({"s": "isize", "k": "int", "hp": False, "nd": False, "dp": 0})
+        xl = new_local()
+        tl = new_local({"s": "(?,)", "k": "tuple", "hp": False, "nd": False, "dp": 0})
+        rl = new_local()
+        refl = new_local({"s": "&?", "k": "ref", "hp": False, "nd": False, "dp": 0})
+        none = {"k": "agg", "ak": "adt", "name": "core::option::Option", "variant": "None", "vidx": 0, "fields": [], "ops": []}
+
+        def some(op):
+            return {"k": "agg", "ak": "adt", "name": "core::option::Option", "variant": "Some", "vidx": 1, "fields": ["0"], "ops": [op]}
+
+        def mv(l):
+            return {"k": "move", "pl": {"l": l, "p": []}}
+
+        def assign(dst, rv):
+            return {"k": "assign", "dst": dst, "rv": rv, **span}
+
+        def goto_target():
+            return {"k": "goto", "target": t["target"], **span} if t["target"] is not None else {"k": "unreachable", **span}
+
+        def call_f(arg_ops, dst_local, target):
+            return {"k": "call", "callee": {"def": "core::ops::FnOnce::call_once", "full": "core::ops::FnOnce::call_once", "crate": "core", "args": [], "targs": [], "local": False, "trait": "core::ops::FnOnce"},
+                    "fnop": {"k": "const", "ty": unk, "desc": "call_once"}, "args": [copy.deepcopy(args[1]), mv(tl)], "argtys": [fty, {"s": "(?,)", "k": "tuple"}],
+                    "dst": {"l": dst_local, "p": []}, "target": target, "unwind": t["unwind"], **span}
+
+        def tuple_of(ops):
+            return {"k": "agg", "ak": "tuple", "name": "", "variant": "", "vidx": 0, "fields": [], "ops": ops}
+
+        dst = t["dst"]
+        nb0 = len(blocks)
+        if kind == "then":
+            # recv is a bool
+            b_true = {"cleanup": cleanup, "stmts": [assign({"l": tl, "p": []}, tuple_of([]))], "term": call_f([], rl, nb0 + 1)}
+            b_wrap = {"cleanup": cleanup, "stmts": [assign(copy.deepcopy(dst), some(mv(rl)))], "term": goto_target()}
+            b_false = {"cleanup": cleanup, "stmts": [assign(copy.deepcopy(dst), none)], "term": goto_target()}
+            blocks.extend([b_true, b_wrap, b_false])
+            blocks[b]["term"] = {"k": "switch", "discr": copy.deepcopy(args[0]), "targets": [["0", nb0 + 2]], "otherwise": nb0, **span, "adaptor": kind}
+            return [nb0, nb0 + 1, nb0 + 2]
+        payload = copy.deepcopy(recv)
+        payload["p"] = payload["p"] + [{"dc": "Some", "vi": 1}, {"f": 0, "n": "0", "of": ""}]
+        b_none_rv = {"k": "use", "op": {"k": "const", "ty": {"s": "bool", "k": "bool"}, "int": "0", "desc": "false"}} if kind == "is_some_and" else none
+        b_none = {"cleanup": cleanup, "stmts": [assign(copy.deepcopy(dst), b_none_rv)], "term": goto_target()}
+        if kind == "filter":
+            stmts = [assign({"l": refl, "p": []}, {"k": "ref", "mut": False, "pl": payload}), assign({"l": tl, "p": []}, tuple_of([mv(refl)]))]
+            b_some = {"cleanup": cleanup, "stmts": stmts, "term": call_f(None, rl, nb0 + 2)}
+            b_test = {"cleanup": cleanup, "stmts": [], "term": {"k": "switch", "discr": mv(rl), "targets": [["0", nb0]], "otherwise": nb0 + 3, **span}}
+            b_keep = {"cleanup": cleanup, "stmts": [assign(copy.deepcopy(dst), {"k": "use", "op": copy.deepcopy(args[0])})], "term": goto_target()}
+            blocks.extend([b_none, b_some, b_test, b_keep])
+            new = [nb0, nb0 + 1, nb0 + 2, nb0 + 3]
+        else:
+            stmts = [assign({"l": xl, "p": []}, {"k": "use", "op": {"k": "move", "pl": payload}}), assign({"l": tl, "p": []}, tuple_of([mv(xl)]))]
+            b_some = {"cleanup": cleanup, "stmts": stmts, "term": call_f(None, rl, nb0 + 2)}
+            if kind == "map":
+                fin = assign(copy.deepcopy(dst), some(mv(rl)))
+            else:
+                fin = assign(copy.deepcopy(dst), {"k": "use", "op": mv(rl)})
+            b_fin = {"cleanup": cleanup, "stmts": [fin], "term": goto_target()}
+            blocks.extend([b_none, b_some, b_fin])
+            new = [nb0, nb0 + 1, nb0 + 2]
+        blocks[b]["stmts"].append(assign({"l": dl, "p": []}, {"k": "discr", "pl": copy.deepcopy(recv)}))
+        blocks[b]["term"] = {"k": "switch", "discr": mv(dl), "targets": [["0", nb0], ["1", nb0 + 1]], "otherwise": nb0, **span, "adaptor": kind}
+        return new
+
     def _expand_adaptor(self, b, t, callee, locals_, blocks):
+        if callee is not None and callee["def"] == "core::iter::Iterator::for_each":
+            return self._expand_for_each(b, t, callee, locals_, blocks)
+        if callee is not None and callee["def"] in self.OPT_ADAPTORS:
+            return self._expand_option_adaptor(b, t, callee, locals_, blocks)
         if callee is None or callee["def"] not in self.ADAPTORS:
             return None
         d = callee["def"]
@@ -399,9 +539,18 @@ class Inliner:
             n += 1
             for blk in blocks:
                 for s in blk["stmts"]:
-                    if s["k"] != "assign" or s["dst"]["p"] or s["rv"]["k"] != "use":
+                    if s["k"] != "assign" or s["dst"]["p"]:
                         continue
                     dl = locals_[s["dst"]["l"]]
+                    if s["rv"]["k"] == "ref" and not s["rv"]["pl"]["p"]:
+                        # `&mut f` / `&f` of a local holding a known closure: calling through the reference calls it
+                        sty = locals_[s["rv"]["pl"]["l"]]["ty"]
+                        if sty.get("k") in ("closure", "fndef") and dl["ty"].get("k") in ("ref", "refmut") and dl["ty"].get("hp") and not dl["ty"].get("adt"):
+                            dl["ty"] = sty
+                            changed = True
+                        continue
+                    if s["rv"]["k"] != "use":
+                        continue
                     if dl["ty"].get("k") != "param":
                         continue
                     sty = self._op_ty(s["rv"]["op"], locals_)
@@ -420,6 +569,8 @@ class Inliner:
                 aty = t.get("argtys", [None])[0]
                 if aty is not None and aty.get("k") in ("closure", "fndef"):
                     fty = aty
+            if fty is None or fty.get("k") not in ("closure", "fndef"):
+                fty = self._captured_callee(t["args"][0], locals_, t.get("_blocks"))
             if fty is None:
                 return None, None, None
             tup = t["args"][1] if len(t["args"]) > 1 else None
@@ -449,6 +600,69 @@ class Inliner:
                 self.unresolved.append((callee["full"], self._cur))
             return None, None, None
         return f, sub, t["args"]
+
+    def _single_def(self, l, blocks):
+        d = None
+        for blk in blocks:
+            for s_ in blk["stmts"]:
+                if s_["k"] == "assign" and not s_["dst"]["p"] and s_["dst"]["l"] == l:
+                    if d is not None:
+                        return None
+                    d = s_["rv"]
+        return d
+
+    def _closure_of_local(self, l, locals_, blocks, depth=0):
+        """Closure / fn-item type of the value a local holds or refers to (through copies and reborrows)."""
+        for _ in range(8):
+            ty = locals_[l]["ty"]
+            if ty.get("k") in ("closure", "fndef"):
+                return ty
+            d = self._single_def(l, blocks)
+            if not d:
+                return None
+            if d["k"] in ("ref", "addr") and d["pl"]["p"] in (["*"], []):
+                l = d["pl"]["l"]
+            elif d["k"] == "use" and d["op"].get("k") in ("copy", "move") and not d["op"]["pl"]["p"]:
+                l = d["op"]["pl"]["l"]
+            elif d["k"] == "use" and d["op"].get("k") in ("copy", "move") and depth < 3:
+                return self._captured_place(d["op"]["pl"], locals_, blocks, depth + 1)
+            elif d["k"] == "copyderef" and depth < 3:
+                return self._captured_place(d["pl"], locals_, blocks, depth + 1)
+            else:
+                return None
+        return None
+
+    def _captured_place(self, pl, locals_, blocks, depth=0):
+        """`(*env).i` / `env.i`: the callee stored in slot i of a closure environment."""
+        fields = [p for p in pl["p"] if isinstance(p, dict) and "f" in p]
+        if len(fields) != 1:
+            return None
+        env = self._closure_of_local(pl["l"], locals_, blocks, depth)
+        if env is None or not env.get("closure"):
+            return None
+        cpath = env["closure"]
+        idx = fields[0]["f"]
+        for blk in blocks:
+            for s_ in blk["stmts"]:
+                if s_["k"] == "assign" and s_["rv"]["k"] == "agg" and s_["rv"]["ak"] == "closure" and s_["rv"]["name"] == cpath and idx < len(s_["rv"]["ops"]):
+                    o = s_["rv"]["ops"][idx]
+                    if o.get("k") in ("copy", "move") and not o["pl"]["p"]:
+                        r = self._closure_of_local(o["pl"]["l"], locals_, blocks, depth + 1)
+                        if r is not None:
+                            return r
+                    ty = self._op_ty(o, locals_)
+                    if ty is not None and ty.get("k") in ("closure", "fndef"):
+                        return ty
+        return None
+
+    def _captured_callee(self, op, locals_, blocks):
+        """Callee value reached through reborrows, copies and captures of enclosing closures."""
+        if blocks is None or op.get("k") not in ("copy", "move"):
+            return None
+        pl = op["pl"]
+        if not pl["p"]:
+            return self._closure_of_local(pl["l"], locals_, blocks)
+        return self._captured_place(pl, locals_, blocks)
 
     def _tuple_ops(self, tup, blk):
         """Operands of the tuple aggregate assigned to `tup`'s local in the call block."""
